@@ -200,6 +200,7 @@ class Frame:
         self.returned = False  # python bool or z3 Bool: "a return has already been executed"
         self.retval: Any = None
         self.has_ret = False
+        self.definitely = False  # an unguarded return was reached: the function cannot fall off its end
 
 
 class Translator:
@@ -246,6 +247,8 @@ class Translator:
         self.exec_block(fdef.body, fr, True)
         if not fr.has_ret:
             return NONE
+        if fr.definitely:
+            return fr.retval
         # falling off the end returns None
         if isinstance(fr.returned, bool):
             return fr.retval if fr.returned else NONE
@@ -324,6 +327,8 @@ class Translator:
             else:
                 fr.retval = merge(live, val, fr.retval) if not isinstance(live, bool) else val
             fr.returned = z_or(fr.returned, live)
+            if guard is True:
+                fr.definitely = True
             return
         raise Untranslatable(f"statement {type(st).__name__}")
 
@@ -423,6 +428,16 @@ class Translator:
             if isinstance(obj, (list, tuple, dict)) and not is_z3(idx):
                 return obj[idx]
             raise Untranslatable("subscript on symbolic")
+        if isinstance(e, ast.Dict):
+            out = {}
+            for k, v in zip(e.keys, e.values):
+                if k is None:
+                    raise Untranslatable("dict unpacking")
+                kk = self.eval_expr(k, fr)
+                if is_z3(kk):
+                    raise Untranslatable("symbolic dict key")
+                out[kk] = self.eval_expr(v, fr)
+            return out
         if isinstance(e, ast.Tuple):
             return tuple(self.eval_expr(x, fr) for x in e.elts)
         if isinstance(e, ast.List):
@@ -492,6 +507,8 @@ class Translator:
                 else:
                     r = False
                 return r if isinstance(op, ast.Is) else z_not(r)
+            if not is_z3(a) and not is_z3(b) and not isinstance(a, Rec) and not isinstance(b, Rec):
+                return (a is b) if isinstance(op, ast.Is) else (a is not b)
             raise Untranslatable("is-comparison of non-None")
         if isinstance(op, (ast.In, ast.NotIn)):
             if isinstance(b, Net):
@@ -657,7 +674,17 @@ def _i_ipv4network(x, strict=True):
     raise Untranslatable("IPv4Network() of this value")
 
 
+def _i_access_from_nested_dict(dictionary, keys):
+    """primaite.game.agent.utils.access_from_nested_dict on a dict whose STRUCTURE is concrete (values may be terms)."""
+    from primaite.game.agent.utils import access_from_nested_dict
+
+    if keys is NONE:
+        keys = None
+    return access_from_nested_dict(dictionary, keys)
+
+
 DEFAULT_INTRINSICS: Dict[str, Callable] = {
+    "access_from_nested_dict": _i_access_from_nested_dict,
     "int": _i_int,
     "float": _i_float,
     "min": _i_min,
@@ -728,6 +755,16 @@ class Obligations:
         else:
             rec["status"] = "INCONCLUSIVE"
             rec["reason"] = s.reason_unknown()
+            # second back end: cvc5 on the same SMT-LIB2 text (it decides FP division/multiplication much faster)
+            c = cvc5_check(s.sexpr(), self.timeout_ms)
+            self.queries += 1
+            rec["cvc5"] = c
+            if c == "unsat":
+                rec["status"] = "CONFIRMED"
+                rec["decided_by"] = "cvc5"
+            elif c == "sat":
+                rec["status"] = "INCONCLUSIVE"
+                rec["reason"] = "cvc5 says sat but no model is extracted through this path; z3 timed out"
         s.pop()
         rec["time_s"] = round(time.time() - t0, 3)
         self.time_s += time.time() - t0
@@ -756,3 +793,33 @@ def _val(m, v):
         except Exception:
             return str(x)
     return str(x)
+
+
+def cvc5_check(smt2: str, timeout_ms: int) -> str:
+    """Decide an SMT-LIB2 script (z3's sexpr() dump) with the cvc5 wheel. Returns 'sat'/'unsat'/'unknown'/'error: ..'."""
+    try:
+        import cvc5
+    except Exception as e:  # pragma: no cover
+        return f"error: cvc5 unavailable ({e})"
+    try:
+        text = smt2.replace("bv2int", "bv2nat")
+        slv = cvc5.Solver()
+        slv.setOption("tlimit-per", str(int(timeout_ms)))
+        slv.setOption("fp-exp", "true")
+        slv.setLogic("ALL")
+        parser = cvc5.InputParser(slv)
+        parser.setStringInput(cvc5.InputLanguage.SMT_LIB_2_6, text + "\n(check-sat)\n", "obligation")
+        sm = parser.getSymbolManager()
+        last = "unknown"
+        while True:
+            cmd = parser.nextCommand()
+            if cmd.isNull():
+                break
+            out = str(cmd.invoke(slv, sm)).strip()
+            if out in ("sat", "unsat", "unknown"):
+                last = out
+            elif out.startswith("(error"):
+                return "error: " + out[:200]
+        return last
+    except Exception as e:
+        return f"error: {type(e).__name__}: {str(e)[:200]}"
